@@ -205,10 +205,9 @@ func runKernelOpt(sk, dk Kind, xs []uint64, named bool) ([]uint64, string) {
 	n := len(xs)
 	src := Alloc(sk, named, signal.Allocator{Channels: 1, Length: n, Capacity: n})
 	dst := Alloc(dk, named, signal.Allocator{Channels: 1, Length: n, Capacity: n})
-	fill := stalePattern(dk)
 	for i, x := range xs {
 		src.SetSample(i, x)
-		dst.SetSample(i, fill)
+		dst.SetSample(i, stalePatternAt(dk, i))
 	}
 	conv := convCall(sk, dk)
 	if named {
@@ -229,6 +228,20 @@ func stalePattern(k Kind) uint64 {
 		return floatCell(0.3, k)
 	}
 	return normCell(0x5555555555555555, k)
+}
+
+// stalePatternAt: float destinations alternate between the stale value, +0 and -0 (a conversion that
+// skips a store when the old and the new value compare equal loses the sign of zero)
+func stalePatternAt(k Kind, i int) uint64 {
+	if k.IsFloat() {
+		switch i % 3 {
+		case 1:
+			return floatCell(0, k)
+		case 2:
+			return floatCell(math.Copysign(0, -1), k)
+		}
+	}
+	return stalePattern(k)
 }
 
 func runKernel(sk, dk Kind, xs []uint64) []uint64 {
@@ -275,6 +288,53 @@ func (g *Kern) namedCheck(sk, dk Kind, xs, ys []uint64) {
 		return
 	}
 	g.st.branch("named-types-differ")
+	fmt.Fprintf(g.out, "kseq %s %s %s\n", fn, sk, dk)
+	for i, x := range xs {
+		fmt.Fprintf(g.out, "k %s %s\n", cellString(x, sk), cellString(zs[i], dk))
+	}
+	g.st.lines += len(xs) + 1
+}
+
+// pooledCheck runs the kernel through buffers handed out by pool allocators for the second time
+// (get, put, get): a recycled header must convert like a fresh one.
+func (g *Kern) pooledCheck(sk, dk Kind, xs, ys []uint64) {
+	n := len(xs)
+	if n == 0 || n > 64 {
+		return
+	}
+	a := signal.Allocator{Channels: 1, Length: n, Capacity: n}
+	ps, pd := NewPool(sk, a), NewPool(dk, a)
+	var src, dst DynBuf
+	for round := 0; round < 2; round++ {
+		src, dst = ps.Get(), pd.Get()
+		if round == 0 {
+			ps.Put(src)
+			pd.Put(dst)
+		}
+	}
+	for i, x := range xs {
+		src.SetSample(i, x)
+		dst.SetSample(i, stalePatternAt(dk, i))
+	}
+	fn := convName(sk, dk)
+	if p := try(func() { convCall(sk, dk)(src, dst) }); p != "" {
+		fmt.Fprintf(g.out, "kpanic %s %s %s pooled %s\n", fn, sk, dk, strings.ReplaceAll(p, " ", "_"))
+		g.st.lines++
+		return
+	}
+	same := true
+	zs := make([]uint64, n)
+	for i := range zs {
+		zs[i] = dst.Sample(i)
+		if zs[i] != ys[i] {
+			same = false
+		}
+	}
+	if same {
+		g.st.branch("pooled-buffers-identical")
+		return
+	}
+	g.st.branch("pooled-buffers-differ")
 	fmt.Fprintf(g.out, "kseq %s %s %s\n", fn, sk, dk)
 	for i, x := range xs {
 		fmt.Fprintf(g.out, "k %s %s\n", cellString(x, sk), cellString(zs[i], dk))
@@ -331,6 +391,7 @@ func (g *Kern) emitK(sk, dk Kind, xs []uint64) {
 	ys := runKernel(sk, dk, xs)
 	g.flushPanics()
 	defer g.namedCheck(sk, dk, xs, ys)
+	defer g.pooledCheck(sk, dk, xs, ys)
 	fn := convName(sk, dk)
 	fmt.Fprintf(g.out, "kseq %s %s %s\n", fn, sk, dk)
 	for i, x := range xs {
@@ -477,6 +538,48 @@ func (g *Kern) emitKPos(sk, dk Kind, specials []uint64) {
 			xs[i] = specials[(i*7+L)%len(specials)]
 		}
 		g.emitK(sk, dk, xs)
+	}
+	g.longScreen(sk, dk, specials)
+}
+
+// longScreen: very long buffers (parallel or chunked conversion paths). The result at position i may
+// depend only on the sample at position i, so the long run is screened natively against a short run of
+// the same values (which the model judges); positions that differ are emitted as kernel lines.
+func (g *Kern) longScreen(sk, dk Kind, specials []uint64) {
+	ref, p := runKernelOpt(sk, dk, specials, false)
+	if p != "" {
+		return // already reported by the short runs
+	}
+	// the reference must not depend on the stale pattern of the short run: take it from the values
+	m := len(specials)
+	for _, L := range []int{1<<16 + 1, 1<<18 + 3} {
+		src := Alloc(sk, false, signal.Allocator{Channels: 1, Length: L, Capacity: L})
+		dst := Alloc(dk, false, signal.Allocator{Channels: 1, Length: L, Capacity: L})
+		fill := stalePattern(dk)
+		for i := 0; i < L; i++ {
+			src.SetSample(i, specials[i%m])
+			dst.SetSample(i, fill)
+		}
+		if p := try(func() { convCall(sk, dk)(src, dst) }); p != "" {
+			fmt.Fprintf(g.out, "kpanic %s %s %s long%d %s\n", convName(sk, dk), sk, dk, L, strings.ReplaceAll(p, " ", "_"))
+			g.st.lines++
+			continue
+		}
+		var bad []int
+		for i := 0; i < L && len(bad) < 16; i++ {
+			if dst.Sample(i) != ref[i%m] {
+				bad = append(bad, i)
+			}
+		}
+		g.st.Branches[fmt.Sprintf("long-screen-%d", L)]++
+		if len(bad) > 0 {
+			g.st.branch("long-screen-differs")
+			fmt.Fprintf(g.out, "kseq %s %s %s\n", convName(sk, dk), sk, dk)
+			for _, i := range bad {
+				fmt.Fprintf(g.out, "k %s %s\n", cellString(specials[i%m], sk), cellString(dst.Sample(i), dk))
+			}
+			g.st.lines += len(bad) + 1
+		}
 	}
 }
 
